@@ -403,6 +403,18 @@ def lower_bound_on_len(fa, S, site_block, key):
         if r[0] == "rv" and r[1]["k"] == "unop" and r[1]["op"] == "Not":
             r = root_of(fa, r[1]["a"])
             neg = True
+        if r[0] == "call":
+            # `x.is_empty()`: the not-empty edge guarantees one element
+            c0 = callee_of(r[2])
+            nm0 = short(strip_generics((c0.get("resolved") or c0)["path"])) if c0 else ""
+            if nm0 == "is_empty" and r[2]["args"] and coll_key(fa, r[2]["args"][0]) == key:
+                truth = edge_truth_to(fa, b, site_block)
+                if truth is not None:
+                    if neg:
+                        truth = not truth
+                    if truth is False:
+                        best = max(best, 1)
+            continue
         if r[0] != "rv" or r[1]["k"] != "binop":
             continue
         opn = r[1]["op"]
@@ -581,6 +593,18 @@ def discharge(crate, E, site):
             cl = const_eval(fa, m["len"])
             if ci is not None and cl is not None and ci < cl:
                 return "CONST", "constant index %d into an array of %d" % (ci, cl)
+            # constant index into a slice whose length a dominating branch bounds from below
+            # (`if xs.is_empty() { return Err }` ... `xs[0]`)
+            if ci is not None:
+                rl = root_of(fa, m["len"])
+                if rl[0] == "rv" and rl[1]["k"] == "unop" and rl[1]["op"] == "PtrMetadata":
+                    key = coll_key(fa, rl[1]["a"])
+                    if key is not None:
+                        lb = lower_bound_on_len(fa, S, site.b, key)
+                        if produced_nonempty(fa, key):
+                            lb = max(lb, 1)
+                        if lb > ci:
+                            return "LEN-GUARD", "index %d below the length established by a dominating check (>= %d)" % (ci, lb)
             return None
         return None
     if kind == "cast":
